@@ -630,6 +630,92 @@ def model_check(ev, tier, work):
     return None
 
 
+
+FAIL_CAP = 6                 # rejected behaviours examined per profile (the verdict is a violation by then)
+
+
+def validate_capped(behaviours, module, cfg, workdir, chunk_lines, jobs, timeout, cap=FAIL_CAP, tag="vc"):
+    """tracecheck.validate with a bound on the work after failures (a tree that breaks most behaviours would otherwise cost one
+    TLC process per behaviour): a failing chunk is continued behind its first rejected behaviour as ONE new chunk, and the search
+    stops once `cap` behaviours have been rejected; the behaviours not looked at are returned in `unchecked` (never counted as
+    validated).  Failures are reported as by tracecheck.validate."""
+    chunks, cur, curlen = [], [], 0
+    for bi, b in enumerate(behaviours):
+        if cur and curlen + len(b) > chunk_lines:
+            chunks.append(cur); cur = []; curlen = 0
+        cur.append(bi); curlen += len(b)
+    if cur:
+        chunks.append(cur)
+    failures, broken, tot_d, tot_g, rnd, unchecked = [], [], 0, 0, 0, []
+    while chunks:
+        rnd += 1
+        tasks = []
+        for ci, ch in enumerate(chunks):
+            pth = os.path.join(workdir, "%s_%d_%05d.ndjson" % (tag, rnd, ci))
+            n = 0
+            with open(pth, "w") as f:
+                for bi in ch:
+                    for ln in behaviours[bi]:
+                        f.write(ln if ln.endswith("\n") else ln + "\n"); n += 1
+            tasks.append((module, cfg, pth, n, timeout, False))
+        with cf.ThreadPoolExecutor(max_workers=jobs) as ex:
+            res = list(ex.map(tracecheck._run_chunk, tasks))
+        nxt = []
+        for ch, r in zip(chunks, res):
+            tot_d += r["distinct"]; tot_g += r["generated"]
+            if r["accepted"]:
+                continue
+            if r["error"] and r["violated"] is None:
+                broken.append(r); continue
+            m = r["matched"] if r["matched"] is not None else 0
+            if r["violated"] and m > 0:
+                m -= 1          # an invariant failed in the state reached by line m-1: that line is the offending one
+            pos = 0; hit = None
+            for bi in ch:
+                if m < pos + len(behaviours[bi]):
+                    hit = bi; break
+                pos += len(behaviours[bi])
+            if hit is None:
+                hit = ch[-1]; pos -= len(behaviours[hit])
+            failures.append(dict(behaviour=hit, line_in_behaviour=m - pos, violated=r["violated"], chunk=r["path"], tail=r["out_tail"]))
+            rest = ch[ch.index(hit) + 1:]
+            if rest:
+                nxt.append(rest)
+        if len(failures) >= cap:
+            unchecked = [bi for c in nxt for bi in c]
+            break
+        chunks = nxt
+    return dict(failures=failures, broken=broken, distinct=tot_d, generated=tot_g, unchecked=unchecked)
+
+
+def relevant_devs(lines, k):
+    """the literal deviations that can explain a rejection at line k: a deviation changes what the model does only from the first
+    operation of its kind on (mkdir / symlink of a name; removal through debugfs of an object with an xattr block; mkdir in a
+    directory whose stored count was set to the limit)"""
+    ops = [o for x in lines[:k + 1] for o in x.get("ops", [])]
+    kinds = {o["op"] for o in ops}
+    atlimit = any(o["op"] == "setlinks" and o["v"] >= LINK_MAX - 1 for o in ops)
+    out = []
+    for dev in DEV_ORDER:
+        if dev == "DevSymlinkExistsLeak" and "symlink" not in kinds: continue
+        if dev == "DevMkdirExistsLeak" and "mkdir" not in kinds: continue
+        if dev == "DevKillLeaksEaBlock" and not ("setea" in kinds and kinds & {"rm", "rmdir", "kill"}): continue
+        if dev in ("DevMkdirNoNlinkRule", "DevMkdirNoEmlink") and not ("mkdir" in kinds and atlimit): continue
+        out.append(dev)
+    return out
+
+
+def run_alone(lines, module, cfg, workdir, tag, timeout=900):
+    """one behaviour, one TLC process; (rejected, first unmatched line, violated invariant, tail)"""
+    pth = os.path.join(workdir, "alone_%s.ndjson" % tag)
+    with open(pth, "w") as f:
+        for ln in lines:
+            f.write(ln if ln.endswith("\n") else ln + "\n")
+    r = tracecheck._run_chunk((module, cfg, pth, len(lines), timeout, False))
+    if not r["accepted"] and r["error"] and r["violated"] is None:
+        return None, None, None, r["out_tail"]          # TLC itself failed
+    return (not r["accepted"]), r["matched"], r["violated"], r["out_tail"]
+
 # ------------------------------------------------------------------------------------------------ the check
 def trace_cfg(work, prof, dev_on=None, check_edges=True):
     """dev_on: name of one literal deviation (Dir.tla Dev* constant) to enable -- used only to NAME the deviation a rejected behaviour shows"""
@@ -1228,6 +1314,7 @@ def run(tier):
         nfail = 0
         total_lines = 0
         rejected = set()
+        nunchecked = 0
         for prof in PROFILES:
             sub = [bh for bh in behs if bh["spec"]["prof"] == prof]
             if not sub:
@@ -1235,53 +1322,60 @@ def run(tier):
             tb = [to_lines(bh) for bh in sub]
             total_lines += sum(len(x) for x in tb)
             cfgp = trace_cfg(work, prof)
-            res = tracecheck.validate(tb, os.path.join(SPEC, "Trace_Dir.tla"), cfgp, work, chunk_lines=250, jobs=JOBS, timeout=1500)
+            module = os.path.join(SPEC, "Trace_Dir.tla")
+            res = validate_capped(tb, module, cfgp, work, chunk_lines=250, jobs=JOBS, timeout=1500, tag="vc_" + prof)
             if res["broken"]:
                 die_broken("TLC failed on a trace chunk (%s): %s\n%s" % (prof, res["broken"][0]["error"], res["broken"][0]["out_tail"][-1500:]))
             ev.cov["states"] += res["distinct"]; ev.cov["transitions"] += res["generated"]
+            for bi in res["unchecked"]:
+                rejected.add(id(sub[bi])); nunchecked += 1
             failed = sorted({f["behaviour"] for f in res["failures"]})
-            # a rejected behaviour that IS a behaviour of the specification with exactly one literal deviation enabled shows that
-            # deviation: it is reported under the deviation's name (a listed known finding prints KNOWN-FINDING, anything else VIOLATION)
-            named = {}
-            for dev in DEV_ORDER:
-                rest = [bi for bi in failed if bi not in named]
-                if not rest:
-                    break
-                r2 = tracecheck.validate([tb[bi] for bi in rest], os.path.join(SPEC, "Trace_Dir.tla"), trace_cfg(work, prof, dev), work,
-                                         chunk_lines=250, jobs=JOBS, timeout=1500)
-                if r2["broken"]:
-                    continue
-                bad = {f["behaviour"] for f in r2["failures"]}
-                for k, bi in enumerate(rest):
-                    if k not in bad:
-                        named[bi] = dev
             first = {f["behaviour"]: f["line_in_behaviour"] for f in reversed(res["failures"])}
-            for bi in failed:
-                if bi in named:             # rejected as specified, accepted with the deviation: two TLC runs already
-                    rej, matched = True, first.get(bi, 0)
-                else:
-                    rej, matched, inv, tail, _ = tracecheck.confirm(tb[bi], os.path.join(SPEC, "Trace_Dir.tla"), cfgp, work, timeout=900)
+            # every rejected behaviour is examined on its own (in parallel): a behaviour that IS a behaviour of the specification with exactly
+            # one literal deviation enabled shows that deviation and is reported under its name (a listed known finding prints KNOWN-FINDING,
+            # anything else VIOLATION); otherwise the rejection is confirmed by a run of the behaviour alone
+            devcfg = {dev: trace_cfg(work, prof, dev) for dev in DEV_ORDER}
+            noedge = trace_cfg(work, prof, check_edges=False)
+            def examine(bi):
+                tagb = "%s_%d" % (prof, bi)
+                for dev in relevant_devs(sub[bi]["lines"], first.get(bi, 0) or 0):
+                    rej = run_alone(tb[bi], module, devcfg[dev], work, tagb + dev)[0]
+                    if rej is False:
+                        return ("named", dev)
+                rej, matched, inv, tail = run_alone(tb[bi], module, cfgp, work, tagb)
+                if rej is None:
+                    return ("broken", tail)
                 if not rej:
+                    return ("accepted",)
+                if (sub[bi]["spec"].get("cat") or {}).get("kind") == "edge" and run_alone(tb[bi], module, noedge, work, tagb + "ne")[0] is False:
+                    return ("astray", matched)
+                return ("rejected", matched, inv, tail)
+            with cf.ThreadPoolExecutor(max_workers=JOBS) as ex:
+                verdicts = list(ex.map(examine, failed))
+            for bi, v in zip(failed, verdicts):
+                sp = sub[bi]["spec"]
+                if v[0] == "broken":
+                    die_broken("TLC failed on a rejected behaviour (%s): %s" % (prof, v[1][-1500:]))
+                if v[0] == "accepted":
                     continue
-                if bi not in named and (sub[bi]["spec"].get("cat") or {}).get("kind") == "edge":
+                if v[0] == "astray":
                     # accepted once the class labels are ignored = the replay took other edges than the catalogue says: the check is at fault
-                    rej2 = tracecheck.confirm(tb[bi], os.path.join(SPEC, "Trace_Dir.tla"), trace_cfg(work, prof, check_edges=False), work, timeout=900)[0]
-                    if not rej2:
-                        die_broken("a replay of the edge catalogue (%s, %s, %s/%d) is a behaviour of the specification but its steps are not of the catalogued classes (line %s)"
-                                   % (sub[bi]["spec"]["cat"]["univ"], sub[bi]["spec"]["front"], prof, sub[bi]["spec"]["bs"], matched))
+                    die_broken("a replay of the edge catalogue (%s, %s, %s/%d) is a behaviour of the specification but its steps are not of the catalogued classes (line %s)"
+                               % (sp["cat"]["univ"], sp["front"], prof, sp["bs"], v[1]))
                 nfail += 1
                 rejected.add(id(sub[bi]))
-                if bi in named:
-                    k = matched if matched is not None else 0
+                if v[0] == "named":
+                    k = first.get(bi, 0) or 0
                     ln = json.loads(tb[bi][k]) if k < len(tb[bi]) else {"e": "(end)", "ops": []}
-                    vd.violation(named[bi], "the code shows the literal deviation %s (rejected as specified at line %d, %s; accepted with the deviation enabled; front end %s, profile %s/%d)"
-                                 % (named[bi], k, ln["e"], sub[bi]["spec"]["front"], prof, sub[bi]["spec"]["bs"]),
-                                 {"spec": sub[bi]["spec"], "steps": sub[bi]["steps"], "first_unmatched_line": k, "deviation": named[bi]})
+                    vd.violation(v[1], "the code shows the literal deviation %s (rejected as specified at line %d, %s; accepted with the deviation enabled; front end %s, profile %s/%d)"
+                                 % (v[1], k, ln["e"], sp["front"], prof, sp["bs"]),
+                                 {"spec": sp, "steps": sub[bi]["steps"], "first_unmatched_line": k, "deviation": v[1]})
                     continue
-                report(vd, sub[bi], tb[bi], matched, inv, tail)
+                report(vd, sub[bi], tb[bi], v[1], v[2], v[3])
+        ev.cov["not_examined_after_cap"] = nunchecked
         nfail_n, nlines_n = check_nlink(ev, vd, env, work, ncat, nbehs)
         ev.cov["trace_lines_validated"] = total_lines + nlines_n
-        ev.cov["traces_validated_against_impl"] = len(behs) - nfail + len([b for b in nbehs if not b["crash"]]) - nfail_n
+        ev.cov["traces_validated_against_impl"] = len(behs) - nfail - nunchecked + len([b for b in nbehs if not b["crash"]]) - nfail_n
         ev.cov["evaluations"] = len(behs) + len(nbehs)
         # edge catalogue: a class is covered by a front end when an ACCEPTED replay (TLC checked the class of every labelled step) took it
         ecov = {}
